@@ -21,6 +21,7 @@
 
 import inspect
 import ast
+import tokenize
 from functools import update_wrapper, partial
 from weakref import WeakKeyDictionary
 
@@ -156,8 +157,18 @@ def get_ast(func):
         return None
     try:
         rawsource = inspect.getsource(code)
-    except (OSError, IOError):
+    except (OSError, IOError, SyntaxError, tokenize.TokenError, IndexError):
+        # no source, or what the file holds now cannot even be tokenized
         return None
     source = inspect.cleandoc('\n' + rawsource)
-    module = ast.parse(source)
+    try:
+        module = ast.parse(source)
+    except (SyntaxError, ValueError):
+        # not a whole statement (a lambda inside a larger expression), or the
+        # file was changed after it was imported
+        return None
+    if not module.body or not isinstance(
+            module.body[0], (ast.FunctionDef, ast.AsyncFunctionDef)):
+        # eg. the assignment a lambda appears in
+        return None
     return module.body[0]
